@@ -6,6 +6,7 @@ validators are driven over (a) every string up to length L over a 9-class alphab
 (b) random long strings and the 255/256 boundary, (c) the message constructors.
 """
 import itertools
+import signal
 
 from harness import ref_grammar as G
 from txdbus import marshal, message
@@ -27,11 +28,55 @@ VALIDATORS = [
 ]
 
 
+class _Abort(Exception):
+    pass
+
+
+class ValidatorStuck(Exception):
+    """One validator call has been running across two ticks of the CPU-time guard."""
+
+
+# CPU-time guard.  Accepting or rejecting a name of a few hundred characters takes microseconds; a validator that burns
+# more than GUARD_TICK seconds of this process's own CPU time on ONE such string does not, for any practical purpose,
+# answer at all ("rejects every other string with a marshalling error" is then false for that string).  The timer counts
+# the process's user CPU time (ITIMER_VIRTUAL), not the wall clock, so a loaded machine cannot make it fire; the
+# regular-expression engine polls for signals while it backtracks, so the handler's exception ends the call.
+GUARD_TICK = 5.0
+_guard = {'call': 0, 'active': False, 'seen': None, 'armed': False}
+
+
+def _guard_tick(signum, frame):
+    if _guard['active'] and _guard['seen'] == _guard['call']:
+        _guard['seen'] = None
+        _guard['stuck'] = _guard['call']
+        raise ValidatorStuck()
+    _guard['seen'] = _guard['call'] if _guard['active'] else None
+
+
+def arm_guard():
+    if not _guard['armed']:
+        signal.signal(signal.SIGVTALRM, _guard_tick)
+        signal.setitimer(signal.ITIMER_VIRTUAL, GUARD_TICK, GUARD_TICK)
+        _guard['armed'] = True
+
+
+def guarded(f, *a, **kw):
+    _guard['call'] += 1
+    _guard['active'] = True
+    try:
+        return f(*a, **kw)
+    finally:
+        _guard['active'] = False
+        if _guard.get('stuck') == _guard['call']:
+            # (whatever the interrupted code made of the interruption)
+            raise ValidatorStuck()
+
+
 def tx_accepts(fname, s):
     """(accepted?, exception-or-None) — looked up on the module at call time."""
     f = getattr(marshal, fname)
     try:
-        f(s)
+        guarded(f, s)
         return True, None
     except MarshallingError:
         return False, None
@@ -49,6 +94,13 @@ def check_string(ctx, s, origin, order=None):
         tx_ok, exc = tx_accepts(fname, s)
         ctx.count('evaluations')
         ctx.count(('accept_' if ref_ok else 'reject_') + kind)
+        if isinstance(exc, ValidatorStuck):
+            ctx.count('guard_fired')
+            ctx.report('validator-does-not-return',
+                       '%s(%r) (%d characters) was still running after %g to %g s of CPU time' % (
+                           fname, s, len(s), GUARD_TICK, 2 * GUARD_TICK),
+                       {'validator': fname, 'string': s, 'origin': origin}, {'kind': 'string', 'string': s})
+            raise _Abort()       # (every further string of that shape would cost as much)
         if exc is not None:
             ctx.report('wrong-exception-type', '%s(%r) raised %s instead of MarshallingError' % (
                 fname, s, type(exc).__name__), {'validator': fname, 'string': s, 'exc': repr(exc)},
@@ -93,14 +145,20 @@ def constructor_matrix(ctx, names):
             ctx.count('evaluations')
             ctx.count('constructor_cases')
             try:
-                m = build(ctor, pos, s)
+                m = guarded(build, ctor, pos, s)
                 built, exc = True, None
             except MarshallingError:
                 built, exc = False, None
             except Exception as e:
                 built, exc = False, e
             case = {'kind': 'ctor', 'ctor': ctor, 'pos': pos, 'string': s}
-            if exc is not None and not ref_ok:
+            if isinstance(exc, ValidatorStuck):
+                ctx.count('guard_fired')
+                ctx.report('validator-does-not-return',
+                           'building a %s message with %s=%r was still running after %g to %g s of CPU time' % (
+                               ctor, pos, s, GUARD_TICK, 2 * GUARD_TICK), case, case)
+                raise _Abort()
+            elif exc is not None and not ref_ok:
                 ctx.report('ctor-wrong-exception-type',
                            '%s message with %s=%r raised %s instead of MarshallingError' % (
                                ctor, pos, s, type(exc).__name__), case, case)
@@ -124,6 +182,14 @@ def constructor_matrix(ctx, names):
 
 
 def run(ctx):
+    try:
+        _run(ctx)
+    except _Abort:
+        pass
+
+
+def _run(ctx):
+    arm_guard()
     L = 5 if ctx.tier == 'quick' else 6
     shard_i, shard_n = ctx.shard or (0, 1)
     ctx.rule = ('every string of length 0..%d over the 9-class alphabet %r through 5 validators, compared with a '
@@ -244,8 +310,12 @@ def run(ctx):
 
 
 def replay(ctx, rp):
+    arm_guard()
     case = rp.get('case') or {}
-    if case.get('kind') == 'ctor':
-        constructor_matrix(ctx, [case['string']])
-    else:
-        check_string(ctx, case['string'], 'replay')
+    try:
+        if case.get('kind') == 'ctor':
+            constructor_matrix(ctx, [case['string']])
+        else:
+            check_string(ctx, case['string'], 'replay')
+    except _Abort:
+        pass
